@@ -68,7 +68,16 @@ def run_ensemble(rng, obs):
     from .c07 import MapZoo
     if mapname != 'default': s.SetMapper(getattr(MapZoo(obs.seed), mapname))
     evm = stm = None
-    if mons in ('evalmon', 'both'): evm = Monitor(); s.SetEvaluationMonitor(evm)
+    legacy = 0
+    if mons in ('evalmon', 'both'):
+        evm = Monitor()
+        if rng.random() < 0.35:        # a monitor that already holds evaluations (legacy data, or one reused from an earlier run): they are not this run's work
+            legacy = rng.randint(1, 6)
+            for _ in range(legacy):
+                xl = [rng.uniform(l, h) for l, h in zip(box['lo'], box['hi'])]
+                evm(xl, float(raw(xl)))
+        s.SetEvaluationMonitor(evm)
+    obs.desc['legacy_evaluations_in_monitor'] = legacy
     if mons in ('stepmon', 'both'): stm = Monitor(); s.SetGenerationMonitor(stm)
     term = NCOG(1e-4, 2)
     n_before = probe.n
